@@ -242,7 +242,57 @@ def t_splitand(src):
     return ast.unparse(ast.fix_missing_locations(tree)) + "\n"
 
 
-MODES = {"splitand": t_splitand, "dropelse": t_dropelse, "yoda": t_yoda, "annotate": t_annotate, "reformat": t_reformat, "shift": t_shift, "log": t_log, "rename": t_rename, "messages": t_messages, "swapelse": t_swapelse}
+def t_rettmp(src):
+    """`return E` (E not a plain name/constant) becomes `_r = E` / `return _r`."""
+    tree = ast.parse(src)
+    for parent in ast.walk(tree):
+        for field in ("body", "orelse", "finalbody"):
+            stmts = getattr(parent, field, None)
+            if not isinstance(stmts, list):
+                continue
+            i = 0
+            while i < len(stmts):
+                st = stmts[i]
+                if isinstance(st, ast.Return) and st.value is not None and not isinstance(st.value, (ast.Name, ast.Constant)) and not any(isinstance(x, (ast.Yield, ast.YieldFrom, ast.Await)) for x in ast.walk(st.value)):
+                    stmts[i : i + 1] = [ast.Assign(targets=[ast.Name(id="_r", ctx=ast.Store())], value=st.value), ast.Return(value=ast.Name(id="_r", ctx=ast.Load()))]
+                    i += 1
+                i += 1
+        if isinstance(parent, ast.Try):
+            for h in parent.handlers:
+                stmts = h.body
+                i = 0
+                while i < len(stmts):
+                    st = stmts[i]
+                    if isinstance(st, ast.Return) and st.value is not None and not isinstance(st.value, (ast.Name, ast.Constant)):
+                        stmts[i : i + 1] = [ast.Assign(targets=[ast.Name(id="_r", ctx=ast.Store())], value=st.value), ast.Return(value=ast.Name(id="_r", ctx=ast.Load()))]
+                        i += 1
+                    i += 1
+    return ast.unparse(ast.fix_missing_locations(tree)) + "\n"
+
+
+def t_condtmp(src):
+    """`if E:` (E contains a call) becomes `_c = E` / `if _c:` for ifs that are direct statements of a block (elif
+    arms are left alone: hoisting their test would change evaluation order)."""
+    tree = ast.parse(src)
+    for parent in ast.walk(tree):
+        for field in ("body", "orelse", "finalbody"):
+            stmts = getattr(parent, field, None)
+            if not isinstance(stmts, list):
+                continue
+            if field == "orelse" and isinstance(parent, ast.If) and len(stmts) == 1 and isinstance(stmts[0], ast.If):
+                continue
+            i = 0
+            while i < len(stmts):
+                st = stmts[i]
+                if isinstance(st, ast.If) and any(isinstance(x, ast.Call) for x in ast.walk(st.test)) and not any(isinstance(x, (ast.NamedExpr, ast.Yield, ast.Await)) for x in ast.walk(st.test)):
+                    stmts[i : i + 1] = [ast.Assign(targets=[ast.Name(id="_c", ctx=ast.Store())], value=st.test), st]
+                    st.test = ast.Name(id="_c", ctx=ast.Load())
+                    i += 1
+                i += 1
+    return ast.unparse(ast.fix_missing_locations(tree)) + "\n"
+
+
+MODES = {"condtmp": t_condtmp, "rettmp": t_rettmp, "splitand": t_splitand, "dropelse": t_dropelse, "yoda": t_yoda, "annotate": t_annotate, "reformat": t_reformat, "shift": t_shift, "log": t_log, "rename": t_rename, "messages": t_messages, "swapelse": t_swapelse}
 
 
 def main():
